@@ -42,6 +42,18 @@ def run(tier):
     go(san0, [base + ["--mode", "degenerate"]], "degenerate(O0)")
     go(san0, [base + ["--mode", "hostile", "--random", 4000 if q else 200000, "--shard", "%d/%d" % (500 + i, N)] for i in range(N)], "hostile(O0)")
     go(san0, [base + ["--mode", "sequences", "--len", 2, "--zones", 3 if q else 8, "--shard", "%d/%d" % (500 + i, N)] for i in range(N)], "sequences(O0)")
+    # clock operations (SystemClock / SystemClockLoop) under hostile call histories from arbitrary millisecond-counter values,
+    # with a logical step bound on counter reads ("hangs" decided on steps, not wall time), in both sanitizer builds
+    for variant in ("sanrec", "sanrec0"):
+        clk = build(VERIF / "native" / "clocks.cpp", variant)
+        r = run_shards(clk, [["--mode", "c09clock", "--seed", seed, "--rounds", 3000 if q else 300000, "--shard", "%d/%d" % (i, N)] for i in range(N)],
+                       san="rec", timeout=7000)
+        v.absorb(r, "clock-histories(%s)" % variant)
+        for k, n in r.counters.items():
+            tot[k] = tot.get(k, 0) + n
+        samples.extend(r.samples[:1])
+    if tot.get("c09.clock.histories", 0) < 20000 or tot.get("c09.clock.ops_with_counter_beyond_16_bits", 0) < 100000:
+        v.inconclusive_because("clock histories too few: %r" % {k: n for k, n in tot.items() if k.startswith("c09.clock")})
     # the value-type sweeps of the calendar driver at the int32 edge, under sanitizers
     cal = build(VERIF / "native" / "calendar.cpp", "sanrec")
     r = run_shards(cal, [["--mode", "c06secs", "--stride", 99991 if q else 9973, "--edge", "--shard", "%d/%d" % (i, N)] for i in range(N)],
